@@ -227,6 +227,7 @@ UNIT = dict(
     prelude=['prelude.rs', 'prelude_float.rs'],
     items=COMMON + [SPEC,
         dict(kind='struct', file=A, name='AsyncGlobalCache', rules=R1_TYPES + LIFETIME),
+        fn('new', ret='c', ensures=[('stores_arguments', ['C01', 'C04', 'C05', 'C06', 'C07', 'C08'], 'c.limit == limit && c.max_memory == max_memory && c.policy == policy && c.ttl == ttl && c.frequency_weight == frequency_weight && c.cache@ == cache@ && c.order@ == order@')]),
         fn('get', ret='res', rules=R4 + R5, requires=WF, ensures=GET_ENS),
         fn('is_already_key_inserted', split_self=True, ret='r', rules=R4,
            requires=[('wf', 'wf(old(cache)@, old(order)@)')],
